@@ -59,11 +59,30 @@ def configurations(ctx, thorough=None):
     return [("debug", ()), ("release", ()), ("release", tuple(FEATURES))]
 
 
+def source_state():
+    y = os.path.join(yvlib.REPO, "yarel")
+    return yvlib.sha(os.path.join(y, "src"), os.path.join(y, "Cargo.toml"), os.path.join(y, "build.rs"),
+                     os.path.join(yvlib.VERIF, "harness", "src"), os.path.join(yvlib.VERIF, "harness", "Cargo.toml"))
+
+
 def build_all(ctx, cfgs):
+    """All binaries must come from ONE state of the sources: /repo and the harness may be edited while the (up to 33)
+    builds run, so the pass is repeated (cargo rebuilds only what is stale) until the sources did not change during it."""
     t0 = time.time()
-    with ThreadPoolExecutor(max_workers=6) as ex:
-        bins = list(ex.map(lambda c: ctx.harness(c[0], c[1]), cfgs))
+    for attempt in range(4):
+        before = source_state()
+        with ThreadPoolExecutor(max_workers=6) as ex:
+            if attempt == 0:
+                bins = list(ex.map(lambda c: ctx.harness(c[0], c[1]), cfgs))
+            else:
+                bins = list(ex.map(lambda c: yvlib.build_harness(c[0], c[1]), cfgs))
+        if source_state() == before:
+            break
+        log("[C10] sources changed while building, pass %d repeated" % (attempt + 1))
+    else:
+        ctx.notes.append("sources kept changing during 4 build passes; binaries may stem from different states")
     ctx.cov["build_s"] = round(ctx.cov.get("build_s", 0) + time.time() - t0, 1)
+    ctx.cov["source_state"] = before[:16]
     return bins
 
 
@@ -557,7 +576,7 @@ def differential(ctx, cfgs, n_generated, label):
     results = run_everywhere(bins, lines)
     run_s = time.time() - t0
     paced_ix = next((i for i, c in enumerate(cfgs) if c == ("release", ())), None)
-    agree = disagree = all_fail = compile_err = 0
+    agree = disagree = all_fail = compile_err = confirmations = unconfirmed = 0
     nontrivial = set()
     collected_progs = 0
     outcomes = {}
@@ -587,6 +606,17 @@ def differential(ctx, cfgs, n_generated, label):
                                 "collections_in_paced_build": ncoll,
                                 "collections_in_dev_build": collections(results[0][j])})
             continue
+        # confirmation: the machine may be overloaded (a slow dev build hitting the case timeout is not a finding) -
+        # the program is run again in every binary, one process each, with a six times longer timeout
+        if confirmations < 12:
+            confirmations += 1
+            again = [yvlib.run_harness(b, [pr["line"]], case_timeout_ms=6 * TIMEOUT_MS, shards=1)[0] for b in bins]
+            sigs = [canon(r) for r in again]
+            first = sigs[0]
+            if all(s == first for s in sigs[1:]):
+                unconfirmed += 1
+                agree += 1
+                continue
         disagree += 1
         if reported >= 5:
             continue
@@ -624,6 +654,7 @@ def differential(ctx, cfgs, n_generated, label):
     c["disagreements_checked"] = c.get("disagreements_checked", 0) + disagree
     c["programs_all_builds_fail_alike_not_reported"] = c.get("programs_all_builds_fail_alike_not_reported", 0) + all_fail
     c["programs_compile_error_everywhere"] = compile_err
+    c["disagreements_not_confirmed_on_rerun"] = c.get("disagreements_not_confirmed_on_rerun", 0) + unconfirmed
     c["programs_paced_build_collected"] = c.get("programs_paced_build_collected", 0) + collected_progs
     c["distinct_nontrivial"] = c.get("distinct_nontrivial", 0) + len(nontrivial)
     c["outcome_histogram"] = outcomes
